@@ -45,6 +45,36 @@ def chain_monitor(info, xs, execs, wfe, obs, pol):
     return out
 
 
+def l1_monitor(rec):
+    """resuming (rewind_in_progress on the live state: what a server reload from the tick log does) keeps the retry
+    bookkeeping of every interrupted execution: it is started again (or queued again) as the SAME attempt - same attempt
+    number and first-attempt time - so that the next failure is answered with the delay the strategy documents for that
+    retry"""
+    if rec[0] != "rewind":
+        return []
+    _, before, after, cmds, cfg = rec
+    from workflows.runtime.types.commands import CommandRunWorker  # noqa: F401
+    out = []
+    for name, w in before.workers.items():
+        want = sorted(((ip.event.get("i", None), type(ip.event).__name__, ip.attempts, ip.first_attempt_at) for ip in w.in_progress), key=repr)
+        if not want:
+            continue
+        wa = after.workers[name]
+        have = sorted([(ip.event.get("i", None), type(ip.event).__name__, ip.attempts, ip.first_attempt_at) for ip in wa.in_progress]
+                      + [(q.event.get("i", None), type(q.event).__name__, q.attempts or 0, q.first_attempt_at) for q in wa.queue], key=repr)
+        for x in want:
+            if x in have:
+                have.remove(x)
+            elif not x[2] and any(h[:3] == (x[0], x[1], 0) for h in have):
+                # an interrupted FIRST attempt starts over as a first attempt (its clock restarts): nothing to keep
+                have.remove(next(h for h in have if h[:3] == (x[0], x[1], 0)))
+            else:
+                out.append("rewind_in_progress restarted the interrupted execution of step %s for event %s as attempt %s "
+                           "(first attempt at %s): the state after has %s" % (name, x[:2], x[2], x[3],
+                                                                              [h for h in have if h[:2] == x[:2]] or have))
+    return out
+
+
 def run(ctx):
     ctx.rule = ("L2 retry chains (see C05): every retry's start time on the real engine under the virtual clock against (i) the "
                 "delay the policy returned for the failure it follows and (ii) the delay the strategy documents for that retry "
@@ -64,6 +94,11 @@ def run(ctx):
                            "(Model/RetryChain.v no longer matches the engine's retry loop)", coq_cases=[exprs[i] for i in bad[:3]]),
                       found_input=False)
     ctx.require_coverage("retrychain", "chains_with_3_or_more_executions", multi, 30)
+    # the delay is a function of the attempt number: the reducer must keep it across a resume (live rewind, exact vs the
+    # model + the statement on the real objects)
+    from props._engine_common import run_l1
+    run_l1(ctx, ctx.n(160, 4000), l1_monitor, "C06_delay_is_wait_of_failure_count (attempt numbers across rewind_in_progress)",
+           need=("rewind_peek", "rewind_peek_with_retry_in_progress"))
     ctx.partial.append("'the first retry uses the first strategy / the k-th retry waits the documented delay' is refuted "
                        "(C06_documented_order_refuted, C06_exponential_initial_delay_refuted) and listed as a known finding; "
                        "proved: each retry starts exactly the policy-returned delay after its failure, and for "
